@@ -79,8 +79,16 @@ func checkC10(c *Ctx) {
 		"S2: phase order in the three service goroutines (Run → cancel → wait for Shutdown → Cleanup → isFinished → isRunning=false → signal handler → Done; ctx.Done → Shutdown → signal; both signals → ErrorHandler guarded by a non-nil aggregate)",
 		"S4: a deferred erc.Recover is on the stack of every user callback", "S5: no true-store to a lifecycle flag after the goroutine that clears it was launched",
 		"S6: the plain field cancel is read only under an atomic flag that is set after the field was written", "S7: Wait returns the aggregate only after wg.Wait",
-		"S8: Start returns nil only from the call that ran the once-body", "S9: every callback result flows into the collector", "G1: all four goroutines are counted in the service WaitGroup before they start")
+		"S8: Start returns nil only from the call that ran the once-body", "S9: every callback result flows into the collector", "G1: all four goroutines are counted in the service WaitGroup before they start",
+		"L1/L4/W*: the fun.WaitGroup behind Service.Wait keeps its check-and-park in one critical section and never loses the zero broadcast or a cancel")
 	c.R.NotCov = append(c.R.NotCov, "the 4^4 fault matrix as observable outcomes (errors.Is over the aggregate is a value property of erc)", "Start racing Wait returning ErrServiceNotStarted")
+	// Service.Wait is fun.WaitGroup.Wait over the service goroutines: the wait group's own
+	// protocol (counter under mu, check-and-park in one critical section, broadcast at zero,
+	// cancel watcher under the lock) is part of "Wait blocks until … and then returns"
+	wgOwner := map[string]bool{"fun.WaitGroup": true}
+	lockRules(c, wgOwner, nil)
+	ruleL4(c, wgOwner, 3)
+	condRules(c, wgOwner, nil)
 	R := c.R
 	p := c.P
 	start := p.FuncNamed("srv.(*Service).Start")
